@@ -168,7 +168,7 @@ def apply(op, target, model, prim, alt=False):
         model.register("aux", F32)
     elif op == "register_alias":
         # a second name for a series the instrument already holds (the tensor is already in the instrument's dtype, so it is stored as it is)
-        src = prim._buffers.get("spot")
+        src = dict(prim.named_buffers()).get("spot")
         if src is None:
             src = torch.ones(2, 3, dtype=F32)
         prim.register_buffer("aux", src)
@@ -187,11 +187,19 @@ def apply(op, target, model, prim, alt=False):
 
 
 def agree(ctx, mon, prim, model, seq, target_label, deriv=None):
-    bufs = {n: b for n, b in prim._buffers.items() if b is not None}  # every name the instrument holds (get_buffer / attribute access read these)
+    # every name the reference expects or the instrument lists, read back through the public accessor
     sig = (target_label,) + tuple(seq)
     listed = dict(prim.named_buffers())
+    bufs = {}
+    for n in sorted(set(model.B) | set(listed)):
+        try:
+            b = prim.get_buffer(n)
+        except AttributeError:
+            continue
+        if b is not None:
+            bufs[n] = b
     if set(listed) != set(bufs) or any(listed[n] is not bufs[n] for n in listed):
-        ctx.violation(mon, "named_buffers", f"{target_label} after {seq}: named_buffers() lists {sorted(listed)} while the instrument holds {sorted(bufs)}", sig=sig, sequence=seq)
+        ctx.violation(mon, "named_buffers", f"{target_label} after {seq}: named_buffers() lists {sorted(listed)} while get_buffer finds {sorted(bufs)}", sig=sig, sequence=seq)
         return False
     if prim.dtype is not model.d and prim.dtype != model.d:
         ctx.violation(mon, "declared_dtype", f"{target_label} after {seq}: instrument.dtype is {prim.dtype}, reference says {model.d}", sig=sig, sequence=seq)
